@@ -418,6 +418,18 @@ class LemmaCtx(Ctx):
         s.add(*st.pc)
         self.requires_sat = str(s.check())
         for h in self.lemma.get("steps", []):
+            if isinstance(h, dict) and "induct" in h:
+                # induction over the integers lo <= i < hi on the predicate P(i): base and step are obligations, the
+                # universally quantified conclusion is then assumed (the induction rule itself is the meta-argument)
+                var, lo, hi, pred = h["induct"]
+                base = "implies(%s < %s, %s)" % (lo, hi, pred.replace("@", "(%s)" % lo))
+                step = "forall(%s, (%s) - 1, lambda %s: implies(%s, %s))" % (lo, hi, var, pred.replace("@", var), pred.replace("@", "(%s + 1)" % var))
+                concl = "forall(%s, %s, lambda %s: %s)" % (lo, hi, var, pred.replace("@", var))
+                for nm, txt in (("induction base", base), ("induction step", step)):
+                    g = ev.spec_bool(txt, st)
+                    self.oblig("lemma %s: %s" % (nm, txt), st, g, None, txt)
+                st.pc.append(ev.spec_bool(concl, st))
+                continue
             g = ev.spec_bool(h, st)
             self.oblig("lemma step: %s" % h, st, g, None, h)
             st.pc.append(g)
@@ -769,7 +781,7 @@ def _check0(hyps, goal, lem, ms, mbqi=True, seed=0, rlimit=0):
     defs = relevant_defs(list(hyps) + [goal] + list(lem or []))
     if defs:
         s.add(*defs)
-    if seed:
+    if seed and not mbqi:
         # restart in a fresh z3 context: re-parsing the query renumbers the terms, which (much more than the seed
         # parameter) changes the instantiation order; only the verdict is needed from these attempts
         ctx = z3.Context()
